@@ -42,9 +42,31 @@ def correspondence(payload):
                              "{0,1,2,3,5}; optimize(p) compared structurally with the generated model; distinct = distinct reprs")
 
 
+def big_trees():
+    mk_, _sets = gen.big_atom_makers()
+    small = gen.scalar_atom_makers(consts=[0, 3, 5], with_fn=False)[:12]
+    out = []
+    for i, a in enumerate(mk_):
+        out += [a(), gen.mk("not", a())]
+        for b in mk_[i + 1:]:
+            for op in ("and", "or", "xor"):
+                out += [gen.mk(op, a(), b()), gen.mk(op, b(), a())]
+        for b in small[::3]:
+            for op in ("and", "or"):
+                out.append(gen.mk(op, a(), b()))
+    return out
+
+
 def search(payload):
     trees, family = trees_for(payload, for_search=True, flags=True)
-    return oc.search(trees, gen.SCALAR_VALUES, "C02", payload, family=family)
+    res = oc.search(trees, gen.SCALAR_VALUES, "C02", payload, family=family)
+    # large / precise parameters, judged at large / precise probe values (no listed family: every failure here is new)
+    big = oc.search(big_trees(), gen.BIG_VALUES + [None, "a", True], "C02", payload)
+    res["evaluations"] += big["evaluations"]
+    res["failures"] = (res["failures"] + big["failures"])[:10]
+    res["known_hits"] += [h for h in big["known_hits"] if not h.get("witness")]
+    res["big_parameter_evaluations"] = big["evaluations"]
+    return res
 
 
 def replay(payload):
